@@ -49,6 +49,8 @@ def normalise(raw, keep_content=True, keep_steps=False):
             out.append(('stable',))
         elif k == 'bcomp':
             out.append(('comp',))
+        elif k == 'fed' or k == 'ser' or k == 'deserialized':
+            pass
         elif k == 'st':
             if keep_steps:
                 out.append(('st', e[1]))
